@@ -2,6 +2,7 @@
 # confirm_variants.sh <patch>...: each behaviour-preserving variant applies to a scratch copy of /repo, builds, and the
 # pinned test suite still passes (tools/baseline.py). Prints one line per patch.
 for pf in "$@"; do
+  pf=$(readlink -f "$pf")
   T=$(mktemp -d /tmp/fpvar.XXXXXX)
   rsync -a --exclude .git /repo/ "$T/"
   if ! (cd "$T" && patch -p1 -s < "$pf" >/dev/null 2>&1); then echo "$(basename $pf): PATCH-FAILED"; rm -rf "$T"; continue; fi
